@@ -33,7 +33,9 @@ THEOREMS = {
             "Backend.C17_unreferenced_sink_destroyed", "Backend.C17_sink_destroyed_iff_unreferenced",
             "Backend.C17_cleanup_reaps_released_sinks", "Backend.C17_erase_after_everything_popped",
             "Backend.C17_erased_logger_statements_popped", "Backend.C17_recreate_after_removal",
-            "Backend.C17_ids_in_range", "Backend.PC.PR_runOps", "Backend.PC.FD_runOps"],
+            "Backend.C17_ids_in_range", "Backend.PC.PR_runOps", "Backend.PC.FD_runOps",
+            # pending blocking removals are served by the pass that erases their logger, none is forgotten (Props/C17Flags.lean)
+            "Backend.C17_cleanup_serves_erased", "Backend.C17_clear_all_forgets_second_caller"],
     "C07": ["Backend.C07_conservation", "Backend.C07_unregistered_empty", "Backend.C07_exit_drains",
             "Backend.C07_exit_flushes_last", "Backend.C07_exit_never_adds", "Backend.C07_pop_progress",
             "Backend.C07_exit_terminates_partial", "Backend.C07_exit_terminates", "Backend.C07_exit_drains_everything",
@@ -43,7 +45,7 @@ THEOREMS = {
 MODULES = {
     "C07": ["QuillModel.Props.C07Drain"],
     "C16": ["QuillModel.Props.C16"],
-    "C17": ["QuillModel.Props.C17", "QuillModel.Props.C17Removal", "QuillModel.Props.C17Destroy"],
+    "C17": ["QuillModel.Props.C17", "QuillModel.Props.C17Removal", "QuillModel.Props.C17Destroy", "QuillModel.Props.C17Flags"],
     "C20": ["QuillModel.Props.C20", "QuillModel.Props.C20Shrink"],
 }
 OBLIG = ["QuillModel.Obligations.BackendC"]
